@@ -17,10 +17,30 @@ MANIFEST = dict(
     design="5/C08")
 
 
+def deps_first(pk, types):
+    """the listed types with every type after the listed types it embeds (depth first, list order otherwise)"""
+    emb = pk.get("embeds") or {}
+    out, seen = [], set()
+
+    def visit(t):
+        if t in seen:
+            return
+        seen.add(t)
+        for e in emb.get(t, []):
+            if e in types:
+                visit(e)
+        out.append(t)
+    for t in types:
+        visit(t)
+    return out
+
+
 def variants(pk, rng):
     """invocation styles of one package: name -> list of shoot argument lists (run in order in one directory)"""
     base = [pk["cmd"]] + pk["flags"]
     types = pk["types"]
+    # with the proposed repair (VERIF_REPAIR) the combined run equals one process per type, DEPENDENCIES FIRST
+    seq = deps_first(pk, types) if os.environ.get("VERIF_REPAIR") == "full" else types
     perm = list(types)
     for _ in range(5):
         rng.shuffle(perm)
@@ -28,13 +48,14 @@ def variants(pk, rng):
             break
     v = {
         "a": [base + ["-type=" + ",".join(types)]],                  # one invocation, list
-        "b": [base + ["-type=" + t] for t in types],                 # one process per type, same order
+        "b": [base + ["-type=" + t] for t in seq],                   # one process per type, same order
         "c": [base + ["-type=" + ",".join(perm)]],                   # permuted list
         "d": [base + ["-file=" + pk["gofile"]]],                     # all-in-one
         "e": [base + ["-file=" + pk["gofile"], "-sep"]],             # same type list, separate files
     }
     if pk.get("star"):
         v["f"] = [base + ["-type=*"]]                                # all-in-one via the go:generate line (+ Clean)
+    pk["seq"] = seq
     return v, perm
 
 
@@ -161,9 +182,9 @@ def build_cases(ctx, pks, res):
         im["exit"] = "0" if rs["a"]["ok"] else "fail"
         add(pk["id"] + "c", "genstate", pk["model"](types, "combined"), im, "a", pk["id"] + "c")
         # (2) the separate processes themselves: ties the per-type model to the code
-        im = type_lines(pk, rs["b"], types)
+        im = type_lines(pk, rs["b"], pk["seq"])
         im["exit"] = "0"
-        add(pk["id"] + "s", "genstate", pk["model"](types, "solo"), im, "b", pk["id"] + "s")
+        add(pk["id"] + "s", "genstate", pk["model"](pk["seq"], "solo"), im, "b", pk["id"] + "s")
         # (3) permuted list: content must be that of the original list
         if pk["perm"] != types:
             im = type_lines(pk, rs["c"], pk["perm"], rs["a"])
@@ -235,6 +256,8 @@ def run(ctx, obl):
             if c["id"] == cid:
                 v["sources"] = c["files"]
                 v["cmd"] = c["cmd"]
+    res.extra["finding_cases"] = [{"sig": v.get("sig"), "cmd": v.get("cmd"), "keys": v.get("differing_keys"),
+                                   "case": v["case"][:60]} for v in res.violations[:16]]
     res.hist("packages", "total", len(pks))
     res.rule = ("seeded multi-type packages: `new` (2-8 struct trees from the C02 grammar: marks, defaults, generics, private embeds, cross embeds between listed "
                 "types, type-level getter/setter switch; flags -getset/-json/-opt), `map` (2-5 type pairs, plain or shoot-new on either side, with / without "
